@@ -26,6 +26,9 @@ def run(sim, case):
 
     sim.tape = list(case['tape'])
     sim.tape_pos = 0
+    # no state of an earlier case leaks into this one
+    main._in_awake_call = False
+    main.current_tt = main.main_tt
     sim.total_jitter = 0.0
     sim.thread_errors = []
     clk.SystemClock.clear()
